@@ -164,6 +164,12 @@ class sptensor:
             # In case user provides an empty array in weird format
             vals = np.array([], dtype=vals.dtype, ndmin=2)
 
+        if subs.size > 0 and vals.shape[0] != subs.shape[0]:
+            raise ValueError(
+                "Number of subscripts and values must be equal, but got "
+                f"{subs.shape[0]} subscripts and {vals.shape[0]} values."
+            )
+
         if copy:
             self.subs = subs.copy()
             self.vals = vals.copy()
